@@ -92,6 +92,20 @@ def run(ctx):
                     ctx.inst("C12.R2", construct, True, "exempt: " + FLAG_STORE_EXEMPT[(k, owner, fld)], "exempt (table)", f.bloc(bi))
                     continue
                 rmw = pv.has_field(owner, fld) and any(o in ("BitOr", "BitAnd", "BitXor") for o in pv.ops)
+                # shape of the update: only `W | x` (set), `W & !x` (clear) and `(W & !M) | x` (replace the bits of mask M) leave every other bit alone
+                W = expr_tree(prog, f, {"c": s["d"]})
+                tr = rvalue_tree(prog, f, s["v"])
+                sc = split_call(tr)
+                shape = False
+                if sc and sc[0] == "bitor" and W in sc[1] and len(sc[1]) >= 2:
+                    shape = True
+                elif sc and sc[0] == "bitand" and len(sc[1]) == 2 and W in sc[1] and any(a.startswith("not(") for a in sc[1]):
+                    shape = True
+                elif sc and sc[0] == "bitor":
+                    inner = [split_call(a) for a in sc[1]]
+                    shape = any(i and i[0] == "bitand" and len(i[1]) == 2 and W in i[1] and any(a.startswith("not(") for a in i[1]) for i in inner)
+                ctx.inst("C12.R2", construct.replace("flag-store/", "flag-store-shape/"), shape,
+                         "the update of %s.%s is W | x, W & !x or (W & !M) | x: no bit outside the named mask can change" % (owner.split("::")[-1], fld), tr, f.bloc(bi))
                 ctx.inst("C12.R2", construct, rmw, "store to %s.%s is a read-modify-write of the same word (bit-or / bit-and with a mask)" % (owner.split("::")[-1], fld),
                          "whole-word overwrite; value derives from %s" % A._pvs(pv) if not rmw else "ok", f.bloc(bi))
     ctx.floor("C12.R2", 4)
@@ -269,3 +283,15 @@ def run(ctx):
     if acc:
         ok, w = A.must_pass(uwe, [x[0] for x in acc])
         ctx.inst("C12.R4", "window/accumulate-always", ok, "every successful window update accumulates the withdrawn equity", "path %s" % w if not ok else "ok", uwe.loc(uwe.raw["span"]))
+
+
+_run_pre_leaves = run
+
+
+def run(ctx):
+    from .kernels import check_leaves
+    try:
+        _run_pre_leaves(ctx)
+    finally:
+        # leaf helpers this property's rules treat by name, pinned as complete path tables
+        check_leaves(ctx, "C12.K", ['bank.get_flag', 'bank.update_flag'])
